@@ -59,7 +59,10 @@ class Contract:
         self.ghost = kw.get("ghost", {})
         self.lets = kw.get("let", {})           # name -> expr, evaluated at entry (after requires)
         self.bind = kw.get("bind", {})
-        self.bind_varargs = kw.get("bind_varargs", [])          # function parameter -> name of a let / param (derived argument)
+        self.bind_varargs = kw.get("bind_varargs", [])
+        self.bind_kwargs = kw.get("bind_kwargs", [])
+        self.yields = kw.get("yields")          # element type of an (async) generator
+        self.cancellation = kw.get("cancellation", False)          # function parameter -> name of a let / param (derived argument)
         self.post_lets = kw.get("post_let", {})  # name -> expr, evaluated at exit
         self.kind = kw.get("kind", "function")  # function | lemma
         self.covers = kw.get("covers", {})
@@ -512,6 +515,8 @@ class ContractSet:
                 break
         for p in c.bind_varargs:
             args.append(loc[p])
+        for p in c.bind_kwargs:
+            kwargs[p] = loc[p]
         for p in names[len(args):]:
             if p in loc and p not in c.bind:
                 kwargs[p] = loc[p]
@@ -630,6 +635,14 @@ class ContractSet:
     # ------------------------------------------------------------------------------------------
     def apply(self, I: Interp, c: Contract, fv, loc):
         P = I.path
+        if c.bind_kwargs and fv.node.args.kwarg is not None:
+            kd = loc.get(fv.node.args.kwarg.arg)
+            loc = dict(loc)
+            for p in c.bind_kwargs:
+                v = I.dict_get(kd, VStr(c=p), None)
+                if v is None:
+                    raise Unsupported(f"{c.target}: keyword argument {p} expected by the contract is missing at the call site")
+                loc[p] = v
         if c.bind_varargs and fv.node.args.vararg is not None:
             va = loc.get(fv.node.args.vararg.arg)
             if not isinstance(va, VTuple) or len(va.items) < len(c.bind_varargs):
@@ -655,6 +668,9 @@ class ContractSet:
         k = P.choose(len(outcomes), f"call:{c.target.split('.')[-1]}") if len(outcomes) > 1 else 0
         self.old_vals = olds
         try:
+            if isinstance(fv.node, ast.AsyncFunctionDef):
+                from . import libmodels
+                libmodels.env_step(I)       # the callee may have been suspended: time passed, peers may have closed
             if k == 0:
                 self.havoc_modifies(I, c, sfr, c.modifies)
                 early = set()
@@ -731,6 +747,12 @@ class ContractSet:
                 P.assume(t.term())
             for lv, src in spec.get("assigns", {}).items():
                 I.assign(c.expr(lv), I.ev(c.expr(src), sfr), sfr)
+            for ev_name, src in spec.get("emits", {}).items():
+                try:
+                    v = self.snapshot(I, I.ev(c.expr(src), sfr), deep_inst=True)
+                except PyRaise as e:
+                    raise Unsupported(f"emits of {c.target} raised {I.hobj(e.exc).cls.name}")
+                P.ghost.setdefault("events", {}).setdefault(ev_name, []).append(v)
             for n, src in spec.get("post", {}).items():
                 t = self.eval_clause(I, c, src, sfr)
                 P.assume(t.term())
@@ -754,6 +776,8 @@ class ContractSet:
             tgt = c.expr(lv)
             if isinstance(tgt, ast.Attribute):
                 base = I.resolve(I.ev(tgt.value, sfr))
+                if isinstance(base, VNone):
+                    continue
                 if isinstance(base, VRef):
                     o = I.hobj(base)
                     ft = self.class_fields(o.cls).get(tgt.attr) if o.cls else None
@@ -975,6 +999,11 @@ class ContractSet:
         # loop exit
         if is_for:
             P.assume(ops.int_cmp("==", fr.locals["_i"], dom["n"]).term())
+            ends = dom.get("raises_at_end") or []
+            if ends:
+                kk = P.choose(1 + len(ends), "generator_end")
+                if kk:
+                    raise PyRaise(I.new_exc(I.class_by_qual(ends[kk - 1]), [VStr(c="raised by the generator")]))
         else:
             if I.cond(I.ev(node.test, fr), "loopguard"):
                 raise PathEnd("guard true at exit")
@@ -1036,7 +1065,7 @@ class ContractSet:
                 o = I.hobj(it)
             if o.kind == "symlist":
                 from . import symlist
-                return {"n": o.meta["len"], "elem": lambda i: symlist.getitem(I, it, o, i)}
+                return {"n": o.meta["len"], "elem": lambda i: symlist.getitem(I, it, o, i), "raises_at_end": o.meta.get("raises_at_end")}
             if o.kind in ("list", "set"):
                 n = mkint(len(o.items))
                 return {"n": n, "elem": lambda i: I.getitem(I.new_list(o.items), i)}
